@@ -233,7 +233,9 @@ def classify(v):
 
 
 MANIFEST_TEXT = (
-    "Held on every generated description observed: thousands (quick) to "
+    "Held (up to the recorded finding: a block that begins with a number "
+    "joins the section list in front of it) on every generated description "
+    "observed: thousands (quick) to "
     "~130k (thorough) abstract descriptions rendered in the four documented "
     "layouts with random documented spellings, connectors and separators, "
     "compared tract-by-tract with an independent expansion model, plus the "
